@@ -3,7 +3,7 @@ import re
 
 from .. import engine
 from ..facts import call_matches, op_place, rvalue_places
-from ..util import (Summaries, calls, dominated_by_any, guarded_by_bool, guarded_by_variant, discr_edges, bool_edges,
+from ..util import (postdominated_by_any, Summaries, calls, dominated_by_any, guarded_by_bool, guarded_by_variant, discr_edges, bool_edges,
                     receiver_field, arg_origin_calls, data_deps, indirect_calls, const_arg, flow_call)
 
 NOT_DECIDED = ("freedom from double free / double drop under every remote interleaving (loom's job), starvation "
@@ -170,6 +170,11 @@ def rules(ctx, db):
         rn = [bb for bb, _ in calls(f, r"^compio_executor::task::Task::run$")]
         ok = len(mc) == 1 and len(tk_) == 1 and len(rn) == 1 and f.cfg.dominates(mc[0], tk_[0]) and f.cfg.dominates(tk_[0], rn[0])
         ctx.ob("R4", "cold-take-run", ok, "make_cold ≺ take ≺ run for every hot task", f)
+        if ok:
+            # a task taken out of the queue is always run before the loop goes on or tick returns (it is never dropped on the floor)
+            reach = f.cfg.reach_set([tk_[0]], avoid=set(rn))
+            ctx.ob("R4", "taken-task-always-run", not any(b in reach for b in mc + list(f.cfg.returns)),
+                   "from take() neither the next make_cold nor a return is reachable without passing Task::run", f)
         lim = calls(f, r"core::iter::traits::iterator::Iterator::take$")
         okl = False
         for bb, t in lim:
@@ -202,6 +207,8 @@ def rules(ctx, db):
     for f in qc:
         d = [bb for bb, _ in calls(f, r"^compio_executor::task::Task::drop$")]
         w = [bb for bb, _ in calls(f, r"Task::wait_for_scheduling$")]
+        ctx.ob("R5", "wait_for_scheduling-on-every-path", bool(d) and bool(w) and all(postdominated_by_any(f, w, b) for b in d),
+               "after a task was dropped by clear() every path to the return waits for in-progress remote scheduling", f)
         ctx.ob("R5", "drop-then-wait_for_scheduling", bool(d) and bool(w) and f.cfg.dominates(d[0], w[0]),
                "every task is dropped and then the executor waits until no remote waker is inside its scheduling section", f)
     ed = m(db, r"^compio_executor::Executor$", "drop", r"Drop$")
